@@ -110,7 +110,9 @@ static void c3_case(uint64_t idx, void *vctx)
     int dclip_k = (int)(idx % 6); idx /= 6;
     int ai = (int)(idx % NAOPT); idx /= NAOPT;
     int so = (int)(idx % nso); idx /= nso;
-    int mo = (int)(idx % (nso + 1)) - 1;          /* -1: no mask */
+    int mo = (int)(idx % (nso + 1)) - 1; idx /= (nso + 1);         /* -1: no mask */
+    int mkind = (int)(idx % 3);                   /* mask image: a8 of 0xff | x8r8g8b8 (flagged opaque by the library: the mask is elided, its clip must not be) | opaque solid fill */
+    if (mo < 0 && mkind) return;
     if (!th) { so = SOPT_Q[so]; if (mo >= 0) mo = SOPT_Q[mo]; }
     int W = DSIZE[sz][0], H = DSIZE[sz][1];
     pixman_format_code_t fmt = DFMT[fi]; int bpp = PIXMAN_FORMAT_BPP(fmt);
@@ -131,8 +133,8 @@ static void c3_case(uint64_t idx, void *vctx)
     for (int run = 0; run < 2 && !vf_failed(); run++) {
         uint8_t fill = run ? 0xff : 0x00;
         /* source: opaque white (run 0) / transparent black (run 1), REPEAT_NORMAL so that any offset is valid */
-        static uint32_t spix[64 * 4], mpix[64];
-        for (int i = 0; i < 64 * 4; i++) spix[i] = run ? 0x00000000 : 0xffffffff;
+        static uint32_t spix[64 * 4], mpix[64], spix_x8[64 * 4];
+        for (int i = 0; i < 64 * 4; i++) { spix[i] = run ? 0x00000000 : 0xffffffff; spix_x8[i] = 0x00ffffff; }
         memset(mpix, 0xff, sizeof mpix);
         pixman_image_t *src = pixman_image_create_bits(PIXMAN_a8r8g8b8, W, H, spix, 64 * 4);
         pixman_image_set_repeat(src, PIXMAN_REPEAT_NORMAL);
@@ -141,7 +143,8 @@ static void c3_case(uint64_t idx, void *vctx)
         pixman_image_set_has_client_clip(src, SOPT[so].client_clip);
         pixman_image_t *msk = NULL;
         if (mo >= 0) {
-            msk = pixman_image_create_bits(PIXMAN_a8, W, H, mpix, 64);
+            pixman_color_t opaque_white = { 0xffff, 0xffff, 0xffff, 0xffff };
+            msk = mkind == 0 ? pixman_image_create_bits(PIXMAN_a8, W, H, mpix, 64) : mkind == 1 ? pixman_image_create_bits(PIXMAN_x8r8g8b8, W, H, spix_x8, 64 * 4) : pixman_image_create_solid_fill(&opaque_white);
             pixman_image_set_repeat(msk, PIXMAN_REPEAT_NORMAL);
             clip_apply(msk, &mclip);
             pixman_image_set_source_clipping(msk, SOPT[mo].clip_sources);
@@ -183,7 +186,7 @@ static void c3_case(uint64_t idx, void *vctx)
             char what[400];
             snprintf(what, sizeof what, "dest %s %dx%d clip=%s alpha-map=%s@(%d,%d)%dx%d src{clip=%s cs=%d cc=%d off=%d} mask{%s clip=%s cs=%d cc=%d off=%d} request (%d,%d) %dx%d run=%d",
                      DFMT_N[fi], W, H, dclip.name, ao->kind ? "a8" : "none", ao->ox, ao->oy, AW, AH, sclip.name, SOPT[so].clip_sources, SOPT[so].client_clip, sx,
-                     mo >= 0 ? "a8" : "none", mclip.name, mo >= 0 ? SOPT[mo].clip_sources : 0, mo >= 0 ? SOPT[mo].client_clip : 0, mx, dx, dy, rw, rh, run);
+                     mo >= 0 ? (mkind == 0 ? "a8" : mkind == 1 ? "x8r8g8b8(opaque)" : "solid(opaque)") : "none", mclip.name, mo >= 0 ? SOPT[mo].clip_sources : 0, mo >= 0 ? SOPT[mo].client_clip : 0, mx, dx, dy, rw, rh, run);
             if (!gb_check(&g, fill, in, &bx, &by, &kind)) {
                 static const char *kn[] = { "pixel outside the composite region was modified", "pixel inside the composite region was not drawn", "row padding modified", "guard area around the buffer modified" };
                 static const char *kk[] = { "c03-wrote-outside-region", "c03-region-pixel-not-drawn", "c03-padding-modified", "c03-guard-modified" };
@@ -393,10 +396,10 @@ int main(int argc, char **argv)
     vf_assume("request coordinates within int32 arithmetic (x + width does not overflow)");
     c3_ctx c = { th };
     int nso = th ? NSOPT : NSOPT_Q;
-    vf_space_run("composite32-and-compute-region", (uint64_t)2 * NDFMT * 6 * NAOPT * nso * (nso + 1), c3_case, &c);
+    vf_space_run("composite32-and-compute-region", (uint64_t)2 * NDFMT * 6 * NAOPT * nso * (nso + 1) * 3, c3_case, &c);
     vf_space_run("fill-glyph-trapezoid-entry-points", (uint64_t)2 * NDFMT * 6 * 5 * 21, other_case, NULL);
     vf_space_run("trapezoid-entry-points-at-the-edges", (uint64_t)4 * 2 * 3 * 3 * TB_NY * TB_NY * TB_NLX * TB_NRX, trap_bounds_case, NULL);
-    vf_bounds = th ? "2 sizes x 6 formats x 6 destination clips x 4 alpha-map options x 15 source options x 16 mask options x 840 rectangles x 2 runs; other entry points: 5 x 21 anchors; trapezoid edges: 4 entry points x 3 alpha formats x 2 sizes x 3 offsets x 105 (top,bottom) x 24 (left,right) x 2 backgrounds"
-                   : "2 sizes x 6 formats x 6 destination clips x 4 alpha-map options x 7 source options x 8 mask options x 840 rectangles x 2 runs; other entry points: 5 x 21 anchors";
+    vf_bounds = th ? "2 sizes x 6 formats x 6 destination clips x 4 alpha-map options x 15 source options x 16 mask options (mask image a8 / opaque x8r8g8b8 / opaque solid) x 840 rectangles x 2 runs; other entry points: 5 x 21 anchors; trapezoid edges: 4 entry points x 3 alpha formats x 2 sizes x 3 offsets x 105 (top,bottom) x 24 (left,right) x 2 backgrounds"
+                   : "2 sizes x 6 formats x 6 destination clips x 4 alpha-map options x 7 source options x 8 mask options (mask image a8 / opaque x8r8g8b8 / opaque solid) x 840 rectangles x 2 runs; other entry points: 5 x 21 anchors";
     return vf_finish();
 }
